@@ -3,6 +3,7 @@
 Rust/Python half; the Lean half (`Minicbor.Thm.C07`, driver ops `tenc` / `tokenc`) is filled in by the lead.
 The derived-impl part of C07 is covered by the derive streams (not here).
 """
+from verifkit import gen
 from verifkit.runner import Stream
 from verifkit import typegen
 from verifkit.props import C01
@@ -64,7 +65,51 @@ def streams(rng, tier):
     s2 = Stream("len-token", "hcore", token_ops(rng, tier), judge=judge_len, nontrivial=nt,
                 rule="tokenc <tokens>: bytes of Encoder::tokens and the sum of minicbor::len over the tokens")
     s1.shrinkable = s2.shrinkable = False
-    return [s1, s2] + derived
+    # the consequence stated by the property: a buffer of exactly len bytes suffices, one byte less does not
+    def enc_calls(calls):
+        out = b""
+        for c in calls:
+            m, _, a = c.partition(":")
+            if m in ("u8", "u16", "u32", "u64"): out += gen.head(0, int(a))
+            elif m in ("i8", "i16", "i32", "i64"):
+                v = int(a); out += gen.head(0, v) if v >= 0 else gen.head(1, -1 - v)
+            elif m == "str": b = b"" if a == "-" else bytes.fromhex(a); out += gen.head(3, len(b)) + b
+            elif m == "bytes": b = b"" if a == "-" else bytes.fromhex(a); out += gen.head(2, len(b)) + b
+            elif m == "array": out += gen.head(4, int(a))
+            elif m == "map": out += gen.head(5, int(a))
+            elif m == "tag": out += gen.head(6, int(a))
+            elif m == "null": out += b"\xf6"
+            elif m == "bool": out += b"\xf5" if a == "1" else b"\xf4"
+        return out
+    chains = [["str:-"], ["bytes:-"], ["u8:7", "str:616263", "str:-"], ["array:2", "u64:4294967296", "bytes:-"], ["array:3", "u8:1", "str:-", "str:-"],
+              ["i32:-100000"], ["map:1", "str:61", "bytes:-"], ["tag:1000", "str:-"], ["array:2", "str:-", "u8:23"], ["u8:24"], ["null"],
+              ["array:1", "bytes:" + "ab" * 30], ["str:" + "61" * 24], ["bool:1"], ["u64:18446744073709551615"]]
+    for _ in range(60):
+        n = rng.randint(1, 4)
+        ch = [f"array:{n}"]
+        for i in range(n):
+            ch.append(rng.choice(["str:-", "bytes:-", f"u32:{gen.rand_u(rng, 32)}", "str:" + gen.rand_text(rng, 5).encode().hex() if rng.random() < 0.9 else "str:-",
+                                  f"i64:{-1 - gen.rand_u(rng, 63)}", "null"]))
+        ch = [c if c != "str:" else "str:-" for c in ch]
+        chains.append(ch)
+    xb = []
+    for ch in chains:
+        n = len(enc_calls(ch))
+        for kind in ("slice", "cslice", "carray", "cbox"):
+            if kind == "carray" and n > 40: continue
+            xb.append(f"sinkenc {kind} {n} {' '.join(ch)} #fits")
+            if n > 0:
+                xb.append(f"sinkenc {kind} {n - 1} {' '.join(ch)} #short")
+    def judge_xb(op, impl, model, spec):
+        fits = op.endswith("#fits")
+        ok = impl.startswith("ok ")
+        if ok != fits:
+            return "violation"
+        return "ok" if impl == model else "corr"
+    s3 = Stream("exact-buffer", "hcore", xb, judge=judge_xb,
+                rule="Encoder call chains (many ending in an empty string / byte string) into slice and cursor sinks of exactly len bytes (must succeed) and len-1 bytes (must fail)")
+    s3.shrinkable = False
+    return [s1, s2, s3] + derived
 
 
 def _judge_derived(op, impl, model, spec):
